@@ -241,8 +241,24 @@ def rules(name, cfg, c0, cs):
         zone = z("zone")
         return lambda t, v, c: [(1 if v[0] > zone else 0) * ((1 if v[1] > v[2] else 0) - (1 if v[1] < v[2] else 0)), ("ratio", v[1] - v[2])]
     if name == "AwesomeOscillator":
+        # #1 "twin peaks": a pivot of the value while at least conseq_peaks pivots of that kind were seen since the value was
+        # last on the other side of zero (counted without any bound); #2 crossing of the zero line
         a = X()
-        return lambda t, v, c: [None, a.cross(v[0], 0.0)]
+        pv = Pivot(z("left"), z("right"), 0.0)
+        peaks = z("conseq_peaks")
+        st = {"hp": 0, "lp": 0}
+
+        def f(t, v, c):
+            rev = pv.next(v[0])
+            st["hp"] += 1 if rev > 0 else 0
+            st["lp"] += 1 if rev < 0 else 0
+            s1 = (1 if (rev < 0 and st["lp"] >= peaks) else 0) - (1 if (rev > 0 and st["hp"] >= peaks) else 0)
+            if not v[0] >= 0.0:
+                st["hp"] = 0
+            if not v[0] <= 0.0:
+                st["lp"] = 0
+            return [s1, a.cross(v[0], 0.0)]
+        return f
     if name == "WoodiesCCI":
         # documented: Trend CCI stays above (below) the zero line for s1_lag bars -> full buy (sell)
         lag = z("s1_lag")
@@ -372,6 +388,14 @@ def run(ctx):
                 cs = [tuple(round(x, 1) if i < 4 else x for i, x in enumerate(c)) for c in cs]
                 cs = [(o, max(o, h, c_), min(o, l, c_), c_, v) for (o, h, l, c_, v) in cs]
             cases.append(SCase(t, small.get(name, []), cs[0], cs[1:], "signals-long", {"regime": regime}))
+    # directed configurations (parameters that switch a code path or move a threshold between two window positions)
+    for name in im.MODELS:
+        t = tabs[name]
+        r = ctx.rng.fork("c06d-" + name)
+        for sets in ind.DIRECTED.get(name, []):
+            for regime in ("walk", "monotone", "plateau"):
+                cs, regime = ind.candles_for(r, (300 if ctx.tier == "quick" else 900) + 1, regime=regime)
+                cases.append(SCase(t, sets, cs[0], cs[1:], "signals-directed", {"regime": regime}))
     # witness of the listed finding KF-C06-keltner-polarity (runs on every check)
     cases.append(SCase(tabs["KeltnerChannel"], [("ma", "sma-2"), ("sigma", "0.5")], (10.0, 10.0, 10.0, 10.0, 1.0),
                        [(10.0, 10.0, 9.0, 9.0, 1.0), (9.0, 30.0, 9.0, 30.0, 1.0)], "known-finding-witness"))
